@@ -154,7 +154,7 @@ PROPS["C14"] = dict(
                "Cello's one-argument-per-specification interface and are not generated.",
     quick=[("asan", 16, 1500), ("plain", 8, 1500)],
     thorough=[("asan", 16, 20000), ("plain", 16, 40000), ("memcheck", 8, 75, {"budget": 900})],
-    floors={"quick": {"spec_at_very_start": 100, "spec_at_very_end": 100, "adjacent_specs": 100,
+    floors={"quick": {"piece_length_sweep_points": 2560, "spec_at_very_start": 100, "spec_at_very_end": 100, "adjacent_specs": 100,
                       "nonzero_start_positions": 100, "file_sink_runs": 100, "too_few_argument_runs": 100,
                       "items_show": 100, "items_float": 100, "items_int": 100, "items_string": 100}},
     rule="case = one generated format string of 1-7 items with its arguments, printed to a String at a chosen start "
